@@ -846,7 +846,16 @@ func windowCases(r *vh.Rng, k int) []Case {
 		sc.SlowCreateUs = 20000
 		c3 := Case{Steps: []StepC{sc, hold([]int{0}, 2000)}, Policy: "hold", Handlers: handlerSet(9, r, 0), Stop: &StopC{At: 0, DelayUs: 4000 + r.Below(8000)}}
 		prep(&c3, r, "slowcreate")
-		out = append(out, c1, c2, c3)
+		// a command that fails by itself between the stop flag and its node's flip (Signal is held up at step 0, whose
+		// executor is being created): with and without the done channel
+		sc4 := hold([]int{}, 3000)
+		sc4.SlowCreateUs = 20000
+		fl := hold([]int{}, 6000)
+		fl.Fails = -1
+		c4 := Case{Steps: []StepC{sc4, fl}, Policy: "hold", Handlers: handlerSet(15, r, 0), Stop: &StopC{At: 0, DelayUs: 2500 + r.Below(1500)}}
+		prep(&c4, r, "failinstop")
+		c4.Done = i%2 == 1
+		out = append(out, c1, c2, c3, c4)
 	}
 	return out
 }
